@@ -269,6 +269,8 @@ func Expr(n N) string {
 		return str(n, "n")
 	case "paren":
 		return "(" + Expr(node(n["e"])) + ")"
+	case "addr":
+		return "&" + sub(node(n["e"]))
 	case "bin":
 		return sub(node(n["l"])) + " " + str(n, "op") + " " + sub(node(n["r"]))
 	case "un":
@@ -278,6 +280,9 @@ func Expr(n N) string {
 	case "nilco":
 		return sub(node(n["l"])) + " ?? " + sub(node(n["r"]))
 	case "list":
+		if ty := str(n, "ty"); ty != "" {
+			return ty + "{" + exprs(list(n, "es")) + "}"
+		}
 		return "[" + exprs(list(n, "es")) + "]"
 	case "map":
 		var p []string
@@ -285,7 +290,7 @@ func Expr(n N) string {
 		for i := range ks {
 			p = append(p, Expr(node(ks[i]))+": "+Expr(node(vs[i])))
 		}
-		return "{" + strings.Join(p, ", ") + "}"
+		return str(n, "ty") + "{" + strings.Join(p, ", ") + "}"
 	case "idx":
 		return sub(node(n["e"])) + "[" + Expr(node(n["i"])) + "]"
 	case "len":
@@ -483,16 +488,18 @@ func encExpr(e ast.Expr) N {
 		return N{"k": "un", "op": x.Operator, "e": encExpr(x.Expr)}
 	case *ast.TernaryOpExpr:
 		return N{"k": "tern", "c": encExpr(x.Expr), "a": encExpr(x.LHS), "b": encExpr(x.RHS)}
+	case *ast.AddrExpr:
+		return N{"k": "addr", "e": encExpr(x.Expr)}
 	case *ast.NilCoalescingOpExpr:
 		return N{"k": "nilco", "l": encExpr(x.LHS), "r": encExpr(x.RHS)}
 	case *ast.ArrayExpr:
 		if x.TypeData != nil {
-			unsupported("typed array literal")
+			return N{"k": "list", "es": encExprs(x.Exprs), "ty": typeText(x.TypeData)}
 		}
 		return N{"k": "list", "es": encExprs(x.Exprs)}
 	case *ast.MapExpr:
 		if x.TypeData != nil {
-			unsupported("typed map literal")
+			return N{"k": "map", "ks": encExprs(x.Keys), "vs": encExprs(x.Values), "ty": typeText(x.TypeData)}
 		}
 		return N{"k": "map", "ks": encExprs(x.Keys), "vs": encExprs(x.Values)}
 	case *ast.ItemExpr:
@@ -560,4 +567,25 @@ func Canon(x interface{}) interface{} {
 		return int64(v)
 	}
 	return x
+}
+
+// typeText spells the simple type expressions the families use ([]T, map[K]T over named types).
+func typeText(t *ast.TypeStruct) string {
+	if t == nil {
+		return ""
+	}
+	switch t.Kind {
+	case ast.TypeDefault:
+		if len(t.Env) == 0 {
+			return t.Name
+		}
+	case ast.TypeSlice:
+		if t.Dimensions == 1 {
+			return "[]" + typeText(t.SubType)
+		}
+	case ast.TypeMap:
+		return "map[" + typeText(t.Key) + "]" + typeText(t.SubType)
+	}
+	unsupported("type expression")
+	return ""
 }
